@@ -79,8 +79,16 @@ def run(repo: Repo, chk: Check, thorough: bool = False) -> None:
     tr = repo.func('pydoctor.qnmatch.translate')
     # ------------------------------------------------------------------ R13.1
     table: Dict[str, Dict[str, List[str]]] = {}
+    patp = tr.params()[0].arg
+    # the character variable: the local assigned from pat[i]; the result variable: the local that is returned inside the wrapper
+    cvars = {t.id for n in tr.walk() if isinstance(n, ast.Assign) and isinstance(n.value, ast.Subscript) and norm(n.value.value) == patp
+             and not isinstance(n.value.slice, ast.Slice) for t in n.targets if isinstance(t, ast.Name)}
+    rvars = {x.id for n in tr.walk() if isinstance(n, ast.Return) and n.value is not None for x in ast.walk(n.value) if isinstance(x, ast.Name)}
+    if len(cvars) != 1 or len(rvars) != 1:
+        raise AnalysisError(f'qnmatch.translate: character variable {cvars} / result variable {rvars} not identified')
+    cvar, rvar = next(iter(cvars)), next(iter(rvars))
     for n in tr.walk():
-        if isinstance(n, ast.If) and isinstance(n.test, ast.Compare) and isinstance(n.test.left, ast.Name) and n.test.left.id == 'c' and \
+        if isinstance(n, ast.If) and isinstance(n.test, ast.Compare) and isinstance(n.test.left, ast.Name) and n.test.left.id == cvar and \
                 isinstance(n.test.ops[0], ast.Eq):
             ch = const_str(n.test.comparators[0])
             if ch is None:
@@ -91,11 +99,11 @@ def run(repo: Repo, chk: Check, thorough: bool = False) -> None:
                 i0 = inner[0]
                 dbl = any(isinstance(c, ast.Compare) and const_str(c.comparators[0]) == '*' for c in ast.walk(i0.test))
                 if dbl:
-                    entry['double'] = _appended_constants(i0.body, 'res')
-                    entry['single'] = _appended_constants(i0.orelse, 'res')
-                    entry['advances'] = [norm(s) for s in i0.body if isinstance(s, (ast.Assign, ast.AugAssign)) and norm(s).startswith('i')]
+                    entry['double'] = _appended_constants(i0.body, rvar)
+                    entry['single'] = _appended_constants(i0.orelse, rvar)
+                    entry['advances'] = [norm(s) for s in i0.body if isinstance(s, (ast.Assign, ast.AugAssign)) and not norm(s).startswith(rvar)]
             else:
-                entry['frag'] = _appended_constants(n.body, 'res')
+                entry['frag'] = _appended_constants(n.body, rvar)
             table[ch] = entry
     if '*' not in table or '?' not in table or '[' not in table:
         raise AnalysisError(f'qnmatch.translate: branch table not recognised (found {sorted(table)})')
@@ -115,10 +123,10 @@ def run(repo: Repo, chk: Check, thorough: bool = False) -> None:
     chk.ob('R13.1', "qnmatch.translate :: '?' denotes exactly one character", cq == 'any1',
            f'emits {q[0]!r}' if cq == 'any1' else f"'?' emits {q} which denotes {cq}", tr.loc)
     # other characters are escaped
-    esc = [c for c in calls_in(tr) if call_name(c) == 'escape' and c.args and norm(c.args[0]) == 'c']
+    esc = [c for c in calls_in(tr) if call_name(c) == 'escape' and c.args and norm(c.args[0]) == cvar]
     last_else = False
     for n in tr.walk():
-        if isinstance(n, ast.If) and isinstance(n.test, ast.Compare) and norm(n.test.left) == 'c' and const_str(n.test.comparators[0]) == '[':
+        if isinstance(n, ast.If) and isinstance(n.test, ast.Compare) and norm(n.test.left) == cvar and const_str(n.test.comparators[0]) == '[':
             last_else = any(isinstance(c, ast.Call) and call_name(c) == 'escape' for st in n.orelse for c in ast.walk(st))
     chk.ob('R13.1', 'qnmatch.translate :: every other character matches itself', bool(esc) and last_else,
            'final else: res + re.escape(c)' if esc and last_else else 'ordinary characters are not escaped (a "." in a pattern would match any character)', tr.loc)
@@ -141,12 +149,12 @@ def run(repo: Repo, chk: Check, thorough: bool = False) -> None:
     # [seq]: leading ! negates, leading ^ or [ is escaped
     br = None
     for n in tr.walk():
-        if isinstance(n, ast.If) and isinstance(n.test, ast.Compare) and norm(n.test.left) == 'c' and const_str(n.test.comparators[0]) == '[':
+        if isinstance(n, ast.If) and isinstance(n.test, ast.Compare) and norm(n.test.left) == cvar and const_str(n.test.comparators[0]) == '[':
             br = n
     neg = esc2 = False
     if br is not None:
         for n in ast.walk(br):
-            if isinstance(n, ast.If) and isinstance(n.test, ast.Compare) and 'stuff[0]' in norm(n.test.left):
+            if isinstance(n, ast.If) and isinstance(n.test, ast.Compare) and isinstance(n.test.left, ast.Subscript) and norm(n.test.left.slice) == '0':
                 if const_str(n.test.comparators[0]) == '!' and any("'^'" in norm(s) for s in n.body):
                     neg = True
                 for o in n.orelse:
@@ -160,12 +168,15 @@ def run(repo: Repo, chk: Check, thorough: bool = False) -> None:
     # ------------------------------------------------------------------ R13.2
     pc = repo.func('pydoctor.model.System.privacyClass')
     cfg = CFG(pc)
-    assigns = [n for n in pc.walk() if isinstance(n, ast.Assign) and any(isinstance(t, ast.Name) and t.id == 'privacy' for t in n.targets)]
+    resv = {n.value.id for n in pc.walk() if isinstance(n, ast.Return) and isinstance(n.value, ast.Name)}
+    fnv = {t.id for n in pc.walk() if isinstance(n, ast.Assign) and norm(n.value).endswith('.fullName()') for t in n.targets if isinstance(t, ast.Name)}
+    resv -= {t.id for n in pc.walk() if isinstance(n, ast.Assign) and 'Cache' in norm(n.value) for t in n.targets if isinstance(t, ast.Name)}
+    assigns = [n for n in pc.walk() if isinstance(n, ast.Assign) and any(isinstance(t, ast.Name) and t.id in resv for t in n.targets) and 'Cache' not in norm(n.value)]
     exact = []
     patt = []
     for a in assigns:
         conds = [p.test for p in parents(a) if isinstance(p, ast.If)]
-        if any(isinstance(t, ast.Compare) and isinstance(t.ops[0], ast.Eq) and 'fullName' in norm(t) for t in conds):
+        if any(isinstance(t, ast.Compare) and isinstance(t.ops[0], ast.Eq) and (norm(t.left) in fnv or 'fullName' in norm(t)) for t in conds):
             exact.append(a)
         elif any('qnmatch' in norm(t) for t in conds):
             patt.append(a)
@@ -212,21 +223,21 @@ def run(repo: Repo, chk: Check, thorough: bool = False) -> None:
     chk.ob('R13.2', 'model.System.privacyClass :: cache keyed by the qualified name', ok, 'get/set with ob.fullName()' if ok else
            'the privacy cache is keyed by something else than the full name (stale after a re-export)', pc.loc)
     # the value cached is the value returned
-    rets = [n for n in pc.walk() if isinstance(n, ast.Return) and isinstance(n.value, ast.Name) and n.value.id == 'privacy']
-    ok = bool(rets) and all(norm(s.value) == 'privacy' for s in sets)
+    rets = [n for n in pc.walk() if isinstance(n, ast.Return) and isinstance(n.value, ast.Name) and n.value.id in resv]
+    ok = bool(rets) and all(norm(s.value) in resv for s in sets)
     chk.ob('R13.2', 'model.System.privacyClass :: returns what it caches', ok, 'cache[...] = privacy; return privacy', pc.loc)
     chk.require('R13.2', 8)
 
     # ------------------------------------------------------------------ R13.3
     pp = repo.func('pydoctor.utils.parse_privacy_tuple')
     look = [n for n in pp.walk() if isinstance(n, ast.Subscript) and 'PrivacyClass' in norm(n.value)]
-    ok = bool(look) and '.upper()' in norm(look[0].slice) and 'strip()' in norm(look[0].slice) and 'parts[0]' in norm(look[0].slice)
+    ok = bool(look) and '.upper()' in norm(look[0].slice) and 'strip()' in norm(look[0].slice) and '[0]' in norm(look[0].slice)
     chk.ob('R13.3', 'utils.parse_privacy_tuple :: level looked up case-insensitively', ok, norm(look[0]) if look else 'lookup not found', pp.loc)
     rets = [n for n in pp.walk() if isinstance(n, ast.Return) and isinstance(n.value, ast.Tuple)]
-    ok = bool(rets) and 'parts[1]' in norm(rets[0].value.elts[1])
+    ok = bool(rets) and '[1]' in norm(rets[0].value.elts[1])
     chk.ob('R13.3', 'utils.parse_privacy_tuple :: pattern is the text after the colon', ok, norm(rets[0].value) if rets else 'return not found', pp.loc)
     sp = [c for c in calls_in(pp) if call_name(c) == 'split']
-    ok = bool(sp) and any(isinstance(n, ast.Compare) and 'len(parts)' in norm(n) and '2' in norm(n) for n in pp.walk())
+    ok = bool(sp) and any(isinstance(n, ast.Compare) and 'len(' in norm(n.left) and norm(n.comparators[0]) == '2' for n in pp.walk())
     chk.ob('R13.3', 'utils.parse_privacy_tuple :: exactly <privacy>:<pattern>', ok, "split(':') and len(parts) != 2 -> error", pp.loc)
 
     cpv = repo.func('pydoctor.options._convert_privacy')
